@@ -340,6 +340,10 @@ class StoreRun:
         else:
             kw.update(ordered=True)
 
+        if fid in self.fs.files and path != "/":
+            parent = "/" + "/".join(split(path)[:-1])
+            if self.fs.canonical(fid, parent, partial=True) is None:
+                raise Skip("destination parent lies behind an external link or a dangling link")
         fs_old = self.fs.clone()
         dest_before = self.fs.lookup(fid, path)
         held_before = dest_before is not None and dest_before.kind == "group" and dest_before.coll is not None
@@ -437,18 +441,29 @@ class StoreRun:
                 except Exception:
                     pass
             if mode != "w" and fid in fs_old.files:
-                dcanon = fs_old.canonical(fid, path, partial=True) or path
+                # the destination is the *link* at `path` (create unlinks it), so only
+                # its parent is resolved through soft links
+                parts = split(path)
+                dlink = None
+                if parts:
+                    par, name = fs_old.parent_and_name(fid, path)
+                    if par is not None:
+                        dlink = (par.id, name)
+                done = set()
                 for p, n in fs_old.coolers(fid).items():
                     canon = fs_old.canonical(fid, p)
-                    if canon is None:
+                    if canon is None or canon in done:
                         continue  # through an external link: reads another file
-                    if canon == dcanon or (dcanon != "/" and canon.startswith(dcanon.rstrip("/") + "/")):
-                        continue  # the destination itself (possibly through a soft link)
+                    done.add(canon)
+                    if not parts:
+                        if canon == "/":
+                            continue
+                    elif dlink is not None and self._passes_link(fs_old, fid, canon, dlink):
+                        continue  # the destination itself, or something reached through it
                     if not isinstance(n.coll, Coll) or not getattr(n, "verified", False):
                         continue
-                    if self._through_external(fs_old, fid, p):
-                        continue
-                    errs = oracles.check_read(uri_of(p, snap), n.coll, label + p + ": ", deep=False)
+                    self.stat("snapshot-neighbour-reads")
+                    errs = oracles.check_read(uri_of(canon, snap), n.coll, label + canon + ": ", deep=False)
                     if errs:
                         self.violate("C13", "O-crash-neighbour", errs)
         for snap in self._snaps:
@@ -457,6 +472,18 @@ class StoreRun:
             except OSError:
                 pass
         self._snaps = []
+
+    def _passes_link(self, fs, fid, canon, dlink):
+        """Does the hard-link path `canon` traverse the link (parent id, name)?"""
+        node = fs.files[fid]
+        for name in split(canon):
+            if (node.id, name) == dlink:
+                return True
+            l = node.children.get(name)
+            if l is None or l[0] != "h":
+                return False
+            node = l[1]
+        return False
 
     def _through_external(self, fs, fid, path):
         node = fs.files[fid]
@@ -708,6 +735,14 @@ class StoreRun:
             r = fs.lookup2(sf, sp)
             if r is None or r[1] == df or self._ext_hops(fs, sf, sp) > 1:
                 raise Skip("copy through an external link into its own target file")
+        if df in fs.files and dp != "/":
+            parent = "/" + "/".join(split(dp)[:-1])
+            if fs.canonical(df, parent, partial=True) is None:
+                raise Skip("destination parent lies behind an external link or a dangling link")
+            if fs.lookup(df, parent) is None and fs.canonical(df, parent, partial=True) != parent:
+                # bound: libhdf5 cannot create missing intermediate groups beyond a
+                # soft link ("address undefined")
+                raise Skip("missing intermediate groups beyond a soft link")
         fs_old = fs.clone()
         new = fs.clone()
         expect_refusal = None
